@@ -41,7 +41,37 @@ def effects():
     global _EFFECTS
     if _EFFECTS is None:
         _EFFECTS = json.loads(EFFECTS_PATH.read_text())
+        validate_effects(_EFFECTS)
     return _EFFECTS
+
+
+IMPURE_KINDS = ("MapperValuedMaskedBuf", "MapperValuedMaskedRec")  # known finding D9b
+
+
+def validate_effects(t):
+    """the table must satisfy the hypotheses under which the Lean theorems apply to it
+    (C11.reads_outside_impure_operations_report_fresh_values): constructors write nothing
+    (`ctorWrites = []`), derivations inherit no cache key (`keeps = false`, hence KeepSound), and the keys
+    that write nothing in place form a dependency-closed set (`CleanOn`), the writing keys being exactly the
+    operations of known finding D9b."""
+    writing, deps = set(), {}
+    for kind, spec in t["kinds"].items():
+        if spec.get("ctor_writes"):
+            raise ValueError(f"effects table: constructor of {kind} declared to write")
+        for how, e in spec.get("derive", {}).items():
+            if e.get("keeps"):
+                raise ValueError(f"effects table: derivation {kind}.{how} declared to keep cache keys {e['keeps']}")
+        for k, e in list(spec.get("reads", {}).items()) + list(spec.get("queries", {}).items()):
+            full = f"{kind}.{k}"
+            deps[full] = [d[1] for d in e.get("deps", [])]
+            if e.get("cwrites") or e.get("vwrites"):
+                if kind not in IMPURE_KINDS:
+                    raise ValueError(f"effects table: {full} declared to write in place (not a recorded finding)")
+                writing.add(full)
+    for k, ds in deps.items():
+        if k not in writing and any(d in writing for d in ds):
+            raise ValueError(f"effects table: clean key {k} reads a writing key")
+    return True
 
 
 # ==================================================================================================
@@ -994,6 +1024,26 @@ def run_rng(case):
             elif st["op"] == "draw":
                 np.random.random(st["n"])
                 fps.append(None)
+            elif b.get("func", "simulator") != "simulator":
+                from autoarray.dataset import preprocess
+                fn = b["func"]
+                expo = np.full((h, w), float(Fraction(b["exposure_time"])))
+                if fn == "poisson_noise_via_data_eps_from":
+                    out = preprocess.poisson_noise_via_data_eps_from(data_eps=img_n, exposure_time_map=expo,
+                                                                     seed=st["seed"])
+                elif fn == "data_eps_with_poisson_noise_added":
+                    out = preprocess.data_eps_with_poisson_noise_added(data_eps=img_n, exposure_time_map=expo,
+                                                                       seed=st["seed"])
+                elif fn == "gaussian_noise_via_shape_and_sigma_from":
+                    out = preprocess.gaussian_noise_via_shape_and_sigma_from(shape=(h, w), sigma=0.5, seed=st["seed"])
+                elif fn == "data_with_gaussian_noise_added":
+                    out = preprocess.data_with_gaussian_noise_added(data=img_n, sigma=0.5, seed=st["seed"])
+                elif fn == "data_with_complex_gaussian_noise_added":
+                    out = preprocess.data_with_complex_gaussian_noise_added(
+                        data=img_n.ravel() + 1j * img_n.ravel()[::-1], sigma=0.5, seed=st["seed"])
+                else:
+                    raise ValueError(fn)
+                fps.append(fp_value(np.asarray(out)))
             else:
                 sim = aa.SimulatorImaging(
                     exposure_time=float(Fraction(b["exposure_time"])),
@@ -1364,7 +1414,7 @@ class C11(PropertyCheck):
         #     twice: every ordered pair (x read, later y read) of quantities occurs in one history
         yield from self._sweep_cases(rng, alpha, reps=2 if quick else 8)
         # 6. seeded simulation under perturbed global RNG states
-        n = 25 if quick else 200
+        n = 40 if quick else 300
         for i in range(n):
             yield self._rng_case(rng, maxsteps)
 
@@ -1482,9 +1532,33 @@ class C11(PropertyCheck):
         if use_psf:
             b["psf_shape"] = [3, 3]
             b["psf"] = [q(_pos(rng, 0, 4) + Fraction(1, 4)) for _ in range(9)]
-        seeds = [rng.randint(0, 50) for _ in range(3)]
+        b["func"] = rng.choice(["simulator"] * 4 + list(self.SEEDED_FUNCS))
+        if b["func"] != "simulator":
+            b.pop("psf", None)
+            b.pop("psf_shape", None)
+            b["add_noise"] = b["noise_in_map"] = True
+        # the seeds of every case include the boundary values of the "fixed seed" domain (0 is the smallest fixed
+        # seed, -1 the sentinel next to it; 2**32 - 1 is the largest numpy accepts)
+        seeds = [0, 1, 2 ** 31 - 1, 2 ** 32 - 1, rng.randint(2, 50), rng.randint(51, 10 ** 6)]
+
+        def perturb():
+            r = rng.random()
+            if r < 0.5:
+                return {"op": "reseed", "j": rng.randint(0, 1000)}
+            return {"op": "draw", "n": rng.randint(1, 5)}
+
         hist = [{"op": "reseed", "j": rng.randint(0, 1000)}]
-        for _ in range(rng.randint(3, maxsteps)):
+        # every boundary seed (and one more) is used twice with a different global state in between
+        for sd in rng.sample(seeds[:4], 4 if maxsteps > 12 else 2) + [rng.choice(seeds[4:])]:
+            hist.append({"op": "simulate", "seed": sd})
+            hist.append(perturb())
+            if rng.random() < 0.3:
+                hist.append({"op": "simulate", "seed": rng.choice(seeds + [-1])})
+                hist.append(perturb())
+            hist.append({"op": "simulate", "seed": sd})
+        if 0 not in [st.get("seed") for st in hist]:
+            hist += [{"op": "simulate", "seed": 0}, perturb(), {"op": "simulate", "seed": 0}]
+        for _ in range(rng.randint(0, max(0, maxsteps - len(hist)))):
             r = rng.random()
             if r < 0.2:
                 hist.append({"op": "reseed", "j": rng.choice([hist[0]["j"], rng.randint(0, 1000)])})
@@ -1494,7 +1568,12 @@ class C11(PropertyCheck):
                 hist.append({"op": "simulate", "seed": -1})
             else:
                 hist.append({"op": "simulate", "seed": rng.choice(seeds)})
-        return {"tag": "rng", "kind": "rng", "build": b, "history": hist}
+        return {"tag": "rng" if b["func"] == "simulator" else "rng_preprocess", "kind": "rng", "build": b,
+                "history": hist}
+
+    SEEDED_FUNCS = ("poisson_noise_via_data_eps_from", "data_eps_with_poisson_noise_added",
+                    "gaussian_noise_via_shape_and_sigma_from", "data_with_gaussian_noise_added",
+                    "data_with_complex_gaussian_noise_added")
 
     # ------------------------------------------------------------------ implementation
     def run_impl(self, case):
@@ -1722,3 +1801,180 @@ class C11(PropertyCheck):
 
 
 CHECK = C11()
+
+
+# ==================================================================================================
+# dev tool: regenerate c11_effects.json (introspection of the public properties + the hand-written parts)
+#   PYTHONPATH=/repo:/verif/harness /venv/bin/python -m props.c11 --regen-effects
+# ==================================================================================================
+def regen_effects():
+    import random
+    from autoconf.tools.decorators import CachedProperty
+    import props.c11 as c11
+    aa = load_autoarray()
+    BLACK = {"hdu_for_output", "dtype", "in_counts", "in_counts_per_second", "original_orientation", "T",
+             "header", "preloads", "run_time_dict", "settings", "profiling_dict", "dataset", "linear_obj_list",
+             "mapper_grids", "border_relocator", "regularization", "mapper", "dataset_model",
+             "inversion", "over_sampling", "unmasked"}
+    SUB = {  # helper objects expanded into dotted keys
+        "derive_mask": None, "derive_indexes": None, "derive_grid": None, "geometry": None, "grids": None,
+    }
+
+    def props_of(obj):
+        out = {}
+        for cls in type(obj).__mro__:
+            for k, v in vars(cls).items():
+                if k.startswith('_') or k in out: continue
+                if isinstance(v, property): out[k] = False
+                elif isinstance(v, CachedProperty): out[k] = True
+        return out
+
+    def readable(obj, prefix="", depth=0):
+        res = {}
+        for k, cached in sorted(props_of(obj).items()):
+            if k in BLACK: continue
+            try:
+                v = getattr(obj, k)
+            except Exception as e:
+                # keep keys that raise library exceptions consistently (e.g. circular_radius on non-circular masks)
+                if type(e).__name__ in ("MaskException",):
+                    res[prefix + k] = {"cached": cached}
+                continue
+            if k in SUB and depth == 0:
+                # the helper object itself is not fingerprinted; its properties are
+                sub = readable(v, prefix + k + ".", depth + 1)
+                res.update(sub)
+                if cached:
+                    res[prefix + k] = {"cached": True}
+                continue
+            try:
+                c11.fp_value(v)
+            except Exception as e:
+                continue
+            res[prefix + k] = {"cached": cached}
+        return res
+
+    rng = random.Random(1)
+    kinds = {}
+    def merge(kind, obj):
+        r = readable(obj)
+        kinds.setdefault(kind, {"reads": {}})
+        for k, e in r.items():
+            kinds[kind]["reads"].setdefault(k, e)
+
+    # sample graphs
+    for struct in ("Array2D", "Grid2D", "VectorYX2D", "Kernel2D", "Mask2D"):
+        for t in range(3):
+            b = c11.CHECK._struct_case_build(rng, struct)
+            if struct == "Grid2D": b["sub"] = 2
+            g = c11.build_graph(b)
+            merge(struct, g.pool[-1])
+    b = c11.CHECK._struct_case_build(rng, "Visibilities")
+    merge("Visibilities", c11.build_graph(b).pool[-1])
+    for t in range(6):
+        m, _ = c11._mask_for_dataset(rng)
+        b = c11.dataset_build(rng, m, inversion=True)
+        b["valued"] = {"values": "reconstruction", "pixel_mask": None}
+        g = c11.build_graph(b)
+        for o, k in zip(g.pool, g.kinds):
+            if k in ("Buffer",): continue
+            merge("FitImaging" if k == "FitInversion" else k, o)
+    kinds["Buffer"] = {"reads": {"bytes": {"cached": False}}}
+    kinds["MapperValued"]["reads"].update({"values": {"cached": False}, "mesh_pixel_mask": {"cached": False}})
+    kinds["Imaging"]["reads"].update({"data": {"cached": False}, "noise_map": {"cached": False}, "psf": {"cached": False}})
+
+    # ---- hand-written parts --------------------------------------------------------------------------
+    SC = ["2", "-1/2", "0", "3/4"]
+    arith = {"mul": {"args": SC}, "rmul": {"args": SC}, "add": {"args": ["1", "-3/2"]}, "sub": {"args": ["1"]},
+             "rsub": {"args": ["2"]}, "div": {"args": ["2", "-4"]}, "neg": {}, "abs": {}, "pow": {"args": ["2"]},
+             "add_self": {}, "mul_array": {"args": ["3", "1/2"]}, "slice": {"args": ["0,2", "1,3", "0,1"]},
+             "copy": {}, "copy_copy": {}, "deepcopy": {}}
+    def D(extra, base=arith, drop=()):
+        d = {k: dict(v) for k, v in base.items() if k not in drop}
+        d.update(extra)
+        return d
+    kinds["Array2D"]["derive"] = D({"native": {}, "slim": {}, "apply_mask": {"args": ["0", "1"]},
+        "trimmed": {"args": ["3x3", "1x3", "3x1"]}, "padded": {"args": ["3x3", "1x3"]},
+        "resized": {"args": ["3x3", "4x6", "7x5", "2x2"]}, "zoomed": {"args": ["0", "1"]}})
+    kinds["Kernel2D"]["derive"] = D({"normalized": {}, "native": {"result": "Array2D"}, "slim": {"result": "Array2D"}},
+                                     drop=("slice", "mul_array"))
+    kinds["Grid2D"]["derive"] = D({"native": {}, "slim": {}, "flipped": {}, "in_radians": {},
+        "subtracted_from": {"args": ["1/2,-1", "0,0"]}, "deflected": {"args": ["1/4", "-1"]},
+        "padded_grid_from": {"args": ["3x3", "1x3"]}}, drop=("pow", "abs", "rsub", "mul_array"))
+    kinds["VectorYX2D"]["derive"] = D({}, drop=("pow", "abs", "rsub", "mul_array", "add_self"))
+    kinds["Mask2D"]["derive"] = {"copy": {}, "copy_copy": {}, "deepcopy": {}, "slice": {"args": ["0,2", "1,3"]},
+        "rescaled": {"args": ["2", "1/2"]}, "mask_resized": {"args": ["7x7", "3x5", "2x2"]},
+        "derive_mask": {"args": ["edge", "border", "all_false", "edge_buffed"]}}
+    kinds["Visibilities"]["derive"] = D({"real": {}}, drop=("abs", "pow", "mul_array"))
+    kinds["Imaging"]["derive"] = {"apply_mask": {"args": ["0", "1"]}, "trimmed": {"args": ["3x3", "1x3"]},
+        "apply_over_sampling": {"args": ["2,1", "1,2", "2,2"]}, "apply_noise_scaling": {"args": ["0", "1"]}}
+    kinds["Mesh"]["derive"] = {"mul": {"args": ["2", "3/4"]}, "add": {"args": ["1"]}, "copy": {}, "deepcopy": {}, "neg": {}}
+    for k in kinds.values():
+        for how, e in k.get("derive", {}).items():
+            e["keeps"] = []
+    kinds["Mask2D"]["queries"] = {"blurring_from": {"args": ["3x3", "1x3", "3x1"]}}
+    kinds["Grid2D"]["queries"] = {"distances_to_coordinate_from": {"args": ["0,0", "1/2,-1"]},
+        "squared_distances_to_coordinate_from": {"args": ["0,0", "-3/4,2"]}, "extent_with_buffer_from": {"args": ["1/2", "0"]}}
+    kinds["Kernel2D"]["queries"] = {"convolved_array_from": {}}
+    kinds["Mapper"]["queries"] = {"pixel_signals_from": {"args": ["1", "1/2"]}, "mapped_to_source_from": {},
+        "mapper_interpolated_array_from": {"args": ["3x3", "2x4"]}}
+    kinds["Inversion"]["queries"] = {"regularization_weights_from": {"args": ["0"]}, "source_quantity_dict_from": {}}
+    kinds["MapperValued"]["queries"] = {"max_pixel_list_from": {"args": ["1,0", "2,1", "3,0"]},
+        "interpolated_array_from": {"args": ["3x3", "2x4"]}, "mapped_reconstructed_image_from": {},
+        "magnification_via_interpolation_from": {"args": ["3x3"]}}
+    kinds["OverSampler"]["queries"] = {"binned_array_2d_from": {}}
+    # ---- known finding D9b: MapperValued.values_masked writes into the values it was given --------------------
+    import copy as _copy
+    D9B_READS = ["values_masked", "max_pixel_centre"]
+    D9B_QUERIES = ["max_pixel_list_from", "interpolated_array_from", "mapped_reconstructed_image_from",
+                   "magnification_via_interpolation_from"]
+    for variant, dep, write in (
+            ("MapperValuedMaskedBuf", [[2, "Buffer.bytes"]], {"cwrites": [[2, "zero_under_mesh_pixel_mask"]]}),
+            ("MapperValuedMaskedRec", [[2, "Inversion.reconstruction"]],
+             {"vwrites": [[2, "Inversion.reconstruction", "zero_under_mesh_pixel_mask"],
+                          [2, "Inversion.reconstruction_reduced", "zero_under_mesh_pixel_mask"]]})):
+        kv = _copy.deepcopy(kinds["MapperValued"])
+        kv["reads"]["values"]["deps"] = dep
+        for k in D9B_READS:
+            kv["reads"][k].update({"deps": dep, **write})
+        for k in D9B_QUERIES:
+            kv["queries"][k].update({"deps": dep, **write})
+        kv["note"] = "known finding D9b: may-writes of values_masked and everything built on it"
+        kinds[variant] = kv
+    # quantities of the inversion computed from its (cached) reconstruction, so that an in-place edit of the
+    # reconstruction is seen to propagate
+    R = [[0, "Inversion.reconstruction"]]
+    for k in ("reconstruction_reduced", "reconstruction_dict", "mapped_reconstructed_data_dict",
+              "mapped_reconstructed_image_dict", "mapped_reconstructed_data", "mapped_reconstructed_image",
+              "data_subtracted_dict"):
+        kinds["Inversion"]["reads"][k]["deps"] = R
+    kinds["Inversion"]["reads"]["regularization_term"]["deps"] = [[0, "Inversion.reconstruction_reduced"]]
+    kinds["Inversion"]["queries"]["source_quantity_dict_from"]["deps"] = R
+    kinds["FitInversion"] = _copy.deepcopy(kinds["FitImaging"])
+    for k in ("model_data", "residual_map", "normalized_residual_map", "chi_squared_map", "chi_squared",
+              "reduced_chi_squared", "log_likelihood", "figure_of_merit", "log_evidence",
+              "log_likelihood_with_regularization", "residual_flux_fraction_map"):
+        kinds["FitInversion"]["reads"][k]["deps"] = [[2, "Inversion.mapped_reconstructed_data"]]
+    for k in ("figure_of_merit", "log_evidence", "log_likelihood_with_regularization"):
+        kinds["FitInversion"]["reads"][k]["deps"] = [[2, "Inversion.mapped_reconstructed_data"],
+                                                       [2, "Inversion.regularization_term"]]
+    # cache deletions performed by a property body (autoarray/inversion/inversion/abstract.py curvature_reg_matrix)
+    kinds["Inversion"]["reads"]["curvature_reg_matrix"]["drops"] = ["curvature_matrix"]
+    kinds["Inversion"]["reads"]["curvature_reg_matrix"]["deps"] = [[0, "Inversion.curvature_matrix"], [0, "Inversion.regularization_matrix"]]
+    kinds["Imaging"]["reads"]["grid"]["deps"] = [[0, "Imaging.grids"]]
+
+    table = {"version": 1,
+     "about": "C11 effects table: per object kind the public quantities that can be read (cached = autoconf cached_property), "
+              "the query methods, and the derivations with the cache keys the derived object keeps (keeps) - all empty after "
+              "the D8 repair. No entry has cwrites / vwrites / ctor_writes: every operation is pure (after D7, D9). "
+              "deps / drops are listed only where a property body deletes or forwards cache entries. Validated by the "
+              "correspondence run on every ./check C11.",
+     "kinds": {k: kinds[k] for k in sorted(kinds)}}
+    json.dump(table, open(EFFECTS_PATH, 'w'), indent=1, sort_keys=True)
+    for k, v in table["kinds"].items():
+        print(k, len(v.get("reads", {})), "reads;", sum(1 for e in v.get("reads", {}).values() if e.get("cached")), "cached;",
+              len(v.get("queries", {})), "queries;", len(v.get("derive", {})), "derivs")
+
+
+if __name__ == "__main__" and "--regen-effects" in sys.argv:
+    regen_effects()
